@@ -315,3 +315,19 @@ RULE_ADDENDA_4 = {
 }
 for _k, _v in RULE_ADDENDA_4.items():
     PROPS[_k]["rule"] += "; added after the fourth round: " + _v
+
+RULE_ADDENDA_5 = {
+    "C01": "every list is iterated under seven detail-flag combinations, comparing only the requested details",
+    "C02": "every bitmap returned by DocNumbers is modified after it was compared, and two lookups without any hit follow",
+    "C03": "all visits of a script pass one copy of the field list, which must stay unchanged",
+    "C05": "25 % of plans carry the same external id in two leaves; DocNumbers runs on the sorted, reversed and document-order id lists; the deterministic merge scenarios of C06 (incl. an empty first input with all but three / all but one document of the dense input deleted) also run here",
+    "C07": "histories and the enumerations for N <= 3 use all eight detail-flag combinations",
+    "C11": "stress goroutines share one doc-value field list starting with an unknown name and treat DocNumbers results as their own",
+    "C12": "a twin batch (every synonym replaced by a string of the same length) is built and every term looked up in it with the list recycled from the original segment; the vocabulary contains two strings with the same CRC-32",
+    "C14": "results of the shared-handle pass are read through the partly drained iterator of the previous non-empty result; eligible sets include the first and the last three quarters of the live documents",
+    "C16": "a deterministic history (cache-history-fixed) alternates eligible sets [0,900) and [300,1200) on one handle of a 1200-vector clustered index; cache-stress adds an expiry hammer: three goroutines open/search/close 150 (thorough 1500) times each while a fourth runs expiry passes back to back",
+    "C19": "the engine's misuse counters (double close, use after close) must stay zero after every faulted build and merge",
+    "C20": "the fixed sequences also run on a persisted empty batch (zero-document file)",
+}
+for _k, _v in RULE_ADDENDA_5.items():
+    PROPS[_k]["rule"] += "; added after the fifth round: " + _v
